@@ -36,7 +36,8 @@ struct Bounds {
     syms: &'static [u64],
 }
 
-const MOD_OFF_FUNC: u64 = 0x1010;
+// odd on purpose: a return address with its low bit set (Thumb) must be reported as stored, bit included
+const MOD_OFF_FUNC: u64 = 0x1011;
 const MOD_OFF_NOFUNC: u64 = 0x8000;
 const MODSZ: u64 = 0x1_0000;
 
